@@ -16,6 +16,12 @@ Record config := mk_config { c_main : option path; c_target : option path; c_bas
 
 Inductive exit := Success | Failure.
 
+(** Config::main / target / base (oal-client/src/config.rs): an option of the command line
+    wins over the entry of the configuration file *)
+Definition orp (a b : option path) : option path := match a with Some x => Some x | None => b end.
+Definition resolve (args file : config) : config :=
+  mk_config (orp (c_main args) (c_main file)) (orp (c_target args) (c_target file)) (orp (c_base args) (c_base file)).
+
 Section Cli.
 Variable Doc Spec Base : Type.
 Variable load_eval : fsys -> path -> option Spec.          (* Processor::load + eval; None = diagnostics printed *)
